@@ -635,6 +635,33 @@ class Engine(object):
         self.model = new_model
         return v
 
+    def scoped(self, cond):
+        """context manager: obligations inside hold under an additional
+        assumption that is dropped again afterwards (no decisions inside)."""
+        eng = self
+
+        class _Scope(object):
+            def __enter__(self_):
+                eng.solver.push()
+                t = z3.simplify(truth(cond))
+                eng.solver.add(t)
+                eng.pc.append(t)
+                self_.n_pc = len(eng.pc)
+                self_.n_trace = len(eng.trace)
+                self_.model = eng.model
+                eng.model = None
+                return self_
+
+            def __exit__(self_, et, ev, tb):
+                eng.solver.pop()
+                del eng.pc[self_.n_pc - 1:]
+                eng.model = self_.model
+                if et is None and len(eng.trace) != self_.n_trace:
+                    raise NotModelled('symbolic decision inside a scoped '
+                                      'assumption')
+                return False
+        return _Scope()
+
     def concretize_int(self, t):
         t = z3.simplify(t)
         if z3.is_int_value(t):
